@@ -301,7 +301,9 @@ pub fn findings_json(f: &Findings) -> Value {
     Value::Object(m)
 }
 
-const NAME_POOL: [&str; 14] = [
+const NAME_POOL: [&str; 19] = [
+    // white space inside a name is part of the name: runs of blanks, a tab, a leading / trailing blank, a no-break space
+    "My  Token.sol", "tab\there.sol", " lead.sol", "nb\u{a0}sp.sol", "trail .sol",
     "Token.sol", "a b.sol", "x:y.sol", "- item.sol", "#hash.sol", "`tick`.sol", "Vault.sol:12", "\u{dc}ber\u{20ac}.sol",
     "deep.sol", "UPPER.SOL.sol", "### Lines.sol", "## Low Risk.sol", "0.sol", "q\"uote\\.sol",
 ];
